@@ -169,7 +169,8 @@ def h2up (method frames : String) (impl : List String) : String :=
           let done (i : Nat) : Bool := match s.threads[i]? with
             | some t => t.done
             | none => false
-          s!"{if done 0 then "reset:StreamRemoteReset" else "hang"} {if done 1 then "resp" else "hang"} same"
+          -- a second request that never gets through endStream never reaches the peer (`none`)
+          s!"{if done 0 then "reset:StreamRemoteReset" else "hang"} {if done 1 then "resp same" else "hang none"}"
         | _, _ => "nopath"
     s!"{if m == s!"{r1} {r2} {same}" then "A" else "D"} {if spec then "S" else "V"} {m}"
   | _ => "E E bad-case"
